@@ -157,9 +157,14 @@ class Gen:
         n = len(sh["units"])
         good = sh["defect"] == "none" and n == 20
         units = []
+        # half of the malformed identifiers are plain text (unreserved ASCII only, escapes of ASCII): a parser
+        # that treats "looks like text" specially must still count decoded bytes
+        plain = (not good) and r.random() < 0.5
         for kind in sh["units"]:
             if good and counted:
                 b = self.cover[kind].take()
+            elif plain:
+                b = r.choice(UNRESERVED) if kind == "raw" else r.randrange(1, 128)
             else:
                 b = r.randrange(256)
                 if kind == "raw" and b in RESERVED_RAW:
